@@ -65,7 +65,7 @@ def run(pid, tier, seed, replay):
         return 1 if still else 0
 
     # ---- 1/2: EXTRACT + PROVE
-    targets = ["BpModel", "bpdriver", "BpProofs.Props." + pid]
+    targets = ["BpModel", "bpdriver"] + ["BpProofs.Props." + mod for mod in C.property_modules(pid)]
     built, log = C.lake_build(targets)
     driver_ok = True
     if built:
@@ -198,7 +198,7 @@ def tail(s, n=1500):
 
 
 def leanchecker(pid):
-    mods = ["BpProofs.Props." + pid]
+    mods = ["BpProofs.Props." + mod for mod in C.property_modules(pid)]
     try:
         rc, out, _ = C.sh(["lake", "env", "leanchecker"] + mods, cwd=C.LEAN, timeout=1500)
     except C.Timeout as e:
